@@ -200,6 +200,59 @@ def run(ctx):
     ctx.ob('CACHE', 'cache-written-from-result', okw and retv, cb.where(), 'trust_cache is filled from trust_vector (%s), which is what the computation returns (%s)' % (okw, retv))
     ctx.floor('CACHE', 2)
 
+    # ---- normalisation is the last thing that happens to the scores
+    # "scores sum to 1": after total = sum(values(trust_vector)) nothing but the division by that total may change an
+    # entry of trust_vector (a later clamp, boost, decay, insert or removal breaks the sum); the published caches are
+    # filled after it (CACHE above) and the vector itself is returned.
+    tv = set(cb.locals_named('trust_vector'))
+    MUTV = r'HashMap::<.*>::(iter_mut|values_mut|insert|get_mut|entry|retain|remove|clear|extend|drain|remove_entry)$'
+
+    def on_tv(c):
+        if not c.args:
+            return False
+        return bool(set(x.a for x in cb.expr(c.args[0]).walk() if x.k in ('let', 'local') and isinstance(x.a, int)) & tv)
+    sums = [c for c in cb.calls(r'iter::Iterator::sum$|Iterator>::sum$|Iterator::sum$') if on_tv(c) or 'trust_vector' in cb.expr(c.args[0]).show()]
+    order = L.rpo(cb)
+    sums.sort(key=lambda c: order.get(c.bb, 10**6))
+    if not sums:
+        ctx.ob('NORMALISE-LAST', 'normalise', False, cb.where(), 'no sum over trust_vector found: the normalisation step is missing')
+    else:
+        S = sums[-1]
+        after = cb.reachable_from([S.bb])
+        muts = [c for c in cb.calls(MUTV) if on_tv(c) and c.bb in after and c.bb != S.bb]
+        muts.sort(key=lambda c: order.get(c.bb, 10**6))
+        # whole-vector reassignment after the sum
+        reassigned = [d for l in tv for d in cb.defs().get(l, []) if d[1] in after and d[1] != S.bb]
+        norm = None
+        if muts:
+            c0 = muts[0]
+            loops = [(h, ns) for h, ns in L.natural_loops(cb) if any(
+                cs2.bb in ns for cs2 in cb.calls() if cs2.declared.endswith('iter::Iterator::next') and on_tv_iter(cb, cs2, c0))]
+            sumdst = S.dest[0] if S.dest else None
+            for h, ns in loops:
+                for bi, si, st in cb.stmts():
+                    if bi in ns and st['r']['k'] == 'bin' and st['r']['op'] in ('Div',):
+                        dv = F.Expr.of_operand(cb, st['r']['b'], 20)
+                        if sumdst is not None and any(x.k in ('let', 'local') and x.a == sumdst for x in dv.walk()):
+                            norm = c0
+        extra = [c for c in muts if c is not norm]
+        okn = norm is not None and not extra and not reassigned
+        ctx.ob('NORMALISE-LAST', 'normalise', okn, (extra[0].where() if extra else S.where()),
+               ('after total = sum(trust_vector) the only change to trust_vector is the division of every entry by that total' if okn else
+                ('no loop dividing every entry by the total follows the sum' if norm is None else
+                 ('trust_vector is changed again after normalisation (%s at line %s): the published scores need not sum to 1' % (extra[0].short(), extra[0].ln))
+                 if extra else 'trust_vector is reassigned after the sum was taken')), entry=cb.root)
+    ctx.floor('NORMALISE-LAST', 1)
+
+
+def on_tv_iter(cb, nxt, mutcall):
+    """is `nxt` (an Iterator::next call) iterating the IterMut produced by `mutcall`?"""
+    e = cb.expr(nxt.args[0])
+    for x in e.walk():
+        if x.k == 'call' and x.c is not None and x.c.bb == mutcall.bb and x.a == mutcall.callee:
+            return True
+    return False
+
 
 def _guarded(b, bb, div):
     """is the divisor known positive / non-zero at bb?"""
